@@ -1,6 +1,7 @@
 import Driver.Sexp
 import Pcore.Model.Ser
 import Pcore.Model.SerSpec
+import Pcore.Generated.SerArms
 /-! Driver op for C10:  `ser <opts> <caps> <val>` (syntax in harness/c10/c10.go). -/
 namespace C10
 open Sx Pcore.Ser
@@ -171,7 +172,8 @@ def exec : List Sexp → String
       if !val.dispOk (mkCfg opts caps) then "unmodelled"
       else if !sharedB (mkCfg opts caps) val then "incoherent-sharing"     -- hypothesis `Shared` of the theorems
       else
-        let ev := serialize opts caps val
+        -- the emit discipline is the one regenerated from serializer.go (fact family serarms)
+        let ev := serializeE (emitOf Pcore.Generated.serArms) opts caps val
         let back := match deserialize ev with
           | .ok r => (valStr [] r).1
           | .error _ => "err"
